@@ -198,12 +198,12 @@ def methodText :=
     (by decide) (by decide) (ParamsL.nil (g := []) (by decide))
 def coreText :=
   IfaceCoreL.mk (name := [97, 46, 98]) (cs := [[99]]) (g1 := [32])
-    (CommentsL.cons (b := [32]) (c := [99]) (post := []) (by decide) (by decide) (by decide) .nil) (by decide) (by decide +kernel)
+    (CommentsL.cons (b := [32]) (c := [99]) (e := 13) (post := [10]) (by decide) (by decide) (Or.inr rfl) (by decide) .nil) (by decide) (by decide +kernel)
     (MembersL.cons (g := [10]) (by decide) (by simp) (MemberL.me methodText) .nil)
 /-- the layout theorem applied to that text (its hypotheses are satisfiable) … -/
 example := C13_layout coreText [10] [32, 10] (by decide) (by decide)
 /-- … and the parser model evaluated on the same bytes by the kernel -/
-example : (match parseInterface ("\n# c\ninterface a.b\nmethod M( x : ?[]int ) -> () \n".toUTF8.toList) with
+example : (match parseInterface ("\n# c\r\ninterface a.b\nmethod M( x : ?[]int ) -> () \n".toUTF8.toList) with
     | .ok b => refText b == refText laidOut | .error => false) = true := by decide +kernel
 end Example
 end C13
